@@ -22,8 +22,16 @@ def single_flag_models(rng, n):
         nS, nC = len(m.species), m.ncells()
         if nS * nC < 2:
             continue
-        mode = len(out) % 3
-        if mode == 0:
+        mode = len(out) % 4
+        if mode == 3:
+            # an explicit False next to a 'default' that says True (keys in either order): the environment's own entry wins
+            if len(m.envs) < 2:
+                continue
+            m.chem = None
+            items = [(rng.choice(m.envs), False), ("default", True)]
+            rng.shuffle(items)
+            m.species[rng.randrange(nS)]["chstt"] = dict(items)
+        elif mode == 0:
             s, i = rng.randrange(nS), rng.randrange(nC)
             m.chem = [[int(ss == s and ii == i) for ii in range(nC)] for ss in range(nS)]
         elif mode == 1:
@@ -33,6 +41,54 @@ def single_flag_models(rng, n):
             m.chem = None
             m.species[rng.randrange(nS)]["chstt"] = True
         out.append(m)
+    return out
+
+
+def flag_position_models():
+    """'every species index, not only the first': a held species declared before, between and after the free species that react
+    in the same cell - on a grid and on a graph, with and without an exchange between the cells. Deterministic: these shapes
+    do not depend on what the random generator happens to draw."""
+    out = []
+    spaces = [{"type": "grid", "w": 2, "h": 1, "d": 1, "bc": (False, False, False), "hh": 1, "cell_env": [0, 1]},
+              {"type": "graph", "nodes": [{"hh": 1, "env": 0}, {"hh": 1, "env": 1}], "edges": [{"i": 1, "j": 0, "sfc": Fr(1), "dst": Fr(1)}]},
+              {"type": "graph", "nodes": [{"hh": 1, "env": 0}, {"hh": 1, "env": 1}], "edges": []}]
+    layouts = [(["H", "X", "Y"], {"X": 1}, {"Y": 1}),      # the held species first, the reaction among the later ones
+               (["X", "H", "Y"], {"X": 1}, {"Y": 1}),      # ... in between
+               (["X", "Y", "H"], {"X": 1}, {"Y": 1}),      # ... last
+               (["H", "Y"], {"H": 1}, {"Y": 1}),           # the held species is the reactant: it feeds the free one
+               (["Y", "H"], {"H": 1}, {"Y": 1}),
+               (["H", "X", "Y"], {"H": 1, "X": 1}, {"Y": 2})]
+    for space in spaces:
+        for labels, sub, prod in layouts:
+            for held_env in ("a", "default"):
+                species = [{"label": l, "D": Fr(1, 2) if l != "H" else Fr(0)} for l in labels]
+                for sp_ in species:
+                    if sp_["label"] == "H":
+                        sp_["chstt"] = {held_env: True} if held_env == "a" else True
+                m = rd_model.Model(species, [{"sub": dict(sub), "prod": dict(prod), "kf": Fr(2)}], ["a", "b"], space, None)
+                m.state = [[6, 4] if l != "Y" else [0, 1] for l in labels]
+                out.append(m)
+    return out
+
+
+def reservoir_models():
+    """A held entry that holds tens of molecules is a diffusion source (and sink) for the free entries next to it: one held
+    species that diffuses, alone or declared after / before a free one, on a grid and on a graph."""
+    out = []
+    spaces = [{"type": "grid", "w": 2, "h": 1, "d": 1, "bc": (False, False, False), "hh": 1, "cell_env": [0, 1]},
+              {"type": "grid", "w": 3, "h": 1, "d": 1, "bc": (True, False, False), "hh": 1, "cell_env": [1, 0, 1]},
+              {"type": "graph", "nodes": [{"hh": 1, "env": 0}, {"hh": 1, "env": 1}], "edges": [{"i": 1, "j": 0, "sfc": Fr(1), "dst": Fr(1)}]}]
+    for space in spaces:
+        nc = space["w"] if space["type"] == "grid" else len(space["nodes"])
+        env = space["cell_env"] if space["type"] == "grid" else [n["env"] for n in space["nodes"]]
+        for labels in (["H"], ["X", "H"], ["H", "X"]):
+            species = [{"label": l, "D": Fr(1, 2)} for l in labels]
+            for sp_ in species:
+                if sp_["label"] == "H":
+                    sp_["chstt"] = {"a": True}
+            m = rd_model.Model(species, [], ["a", "b"], space, None)
+            m.state = [[60 if (l == "H" and env[c] == 0) else (5 if l == "X" else 0) for c in range(nc)] for l in labels]
+            out.append(m)
     return out
 
 
@@ -149,6 +205,8 @@ def run(tier, selftest=False, only=None):
         rng = random.Random(seed * 977 + 35)
         n, sd, st = (40, 16, 30) if tier == "quick" else (300, 40, 40)
         c07.leap_drift_check(rep, rng, n, sd, st, "chemostat-heavy", chem_p=0.6)
+        c07.leap_drift_check(rep, rng, 0, sd, st, "held-species-at-every-position", models=flag_position_models())
+        c07.leap_drift_check(rep, rng, 0, sd, st, "held-reservoir-feeds-its-neighbours", models=reservoir_models(), cap=2000, dt=0.01)
         # large amounts: a flagged entry that holds tens of molecules is a strong source / reactant for its neighbours
         c07.leap_drift_check(rep, rng, (n * 3) // 5, sd, st, "chemostat-heavy-large-amounts", chem_p=0.6, max_mol=60, cap=2000, dt=0.01)
     if sel("euler"):
